@@ -10,6 +10,7 @@ import (
 	"crypto/tls"
 	"fmt"
 	"net/http"
+	"strings"
 
 	"github.com/pkg/errors"
 	"github.com/ysugimoto/falco/v2/interpreter/exception"
@@ -74,4 +75,13 @@ func (h headerKeyStore) Assign(name string) {
 
 func (h headerKeyStore) Unassign(name string) {
 	delete(h, http.CanonicalHeaderKey(name))
+}
+
+// UnassignPrefix forgets every header whose name starts with the prefix (wildcard unset)
+func (h headerKeyStore) UnassignPrefix(prefix string) {
+	for key := range h {
+		if len(key) >= len(prefix) && strings.EqualFold(key[:len(prefix)], prefix) {
+			delete(h, key)
+		}
+	}
 }
